@@ -243,3 +243,284 @@ def r_visited_key(ck: Checker, rule: str, modnames: tuple[str, ...]) -> None:
                         ck.holds(rule, f, t, what, key=norm(key)[:40])
     if n == 0:
         ck.holds(rule, (modnames[0], "*"), None, f"no visited-set short cut in {', '.join(modnames)}")
+
+
+# ----------------------------------------------------------------------------- S4: memo tables with a key that does not identify what is cached
+_REGISTRIES = {"NODE_REGISTRY", "_nodes", "_sources", "_source_idx_to_source", "TYPES"}
+_CONTAINER_CALLS = {"dict", "list", "set", "defaultdict", "collections.defaultdict", "OrderedDict", "collections.OrderedDict", "WeakKeyDictionary",
+                    "weakref.WeakKeyDictionary", "WeakValueDictionary", "weakref.WeakValueDictionary", "deque", "collections.deque", "Counter", "collections.Counter"}
+_CG_SKIP = {"get", "pop", "update", "append", "appendleft", "extend", "insert", "remove", "clear", "add", "discard", "sort", "reverse", "setdefault", "items",
+            "keys", "values", "join", "split", "strip", "startswith", "endswith", "encode", "decode", "format", "copy", "index", "count", "popleft", "lower", "upper",
+            "search", "fullmatch", "compile", "hexdigest", "debug", "info", "warning", "error", "exception", "isEnabledFor"}
+
+
+def _raw_functions(mod) -> list[tuple[str, ast.FunctionDef, ast.ClassDef | None]]:
+    out: list[tuple[str, ast.FunctionDef, ast.ClassDef | None]] = []
+
+    def rec(body: list[ast.stmt], prefix: str, cls: ast.ClassDef | None) -> None:
+        for st in body:
+            if isinstance(st, (ast.FunctionDef, ast.AsyncFunctionDef)):
+                out.append((prefix + st.name, st, cls))  # type: ignore[arg-type]
+                rec(st.body, prefix + st.name + ".", cls)
+            elif isinstance(st, ast.ClassDef):
+                rec(st.body, prefix + st.name + ".", st)
+            elif isinstance(st, (ast.If, ast.Try, ast.With)):
+                for f in ("body", "orelse", "finalbody"):
+                    rec(getattr(st, f, []) or [], prefix, cls)
+    rec(mod.tree.body, "", None)
+    return out
+
+
+def _mutable_container(v: ast.expr | None) -> bool:
+    return isinstance(v, (ast.Dict, ast.List, ast.Set, ast.DictComp, ast.ListComp, ast.SetComp)) or \
+        (isinstance(v, ast.Call) and (dotted(v.func) or "") in _CONTAINER_CALLS)
+
+
+def r_unstable_key(ck: Checker, rule: str, entries: list[tuple[str, str]], why: str) -> None:
+    """A table that outlives a call (module level or class level) and is consulted on the way from the property's entry points must be
+    keyed by something that identifies what is cached for as long as the entry lives.  Positive patterns for the key:
+    a node id (ids are handed out again after detach / replace / garbage collection; and an id does not cover what lies deeper than the
+    direct children), a class / source *name* (`__name__`, `__qualname__`, `__module__`, `fqn`: distinct objects share names), a node object
+    itself in a method of a node class (nodes compare structurally: an equal twin built later hits the entry); and `isinstance(x, T)`
+    against a module-level tuple that functions extend at run time (a subclass of a learned class is taken for it)."""
+    legacy = any(".legacy" in m for m, _ in entries)
+    mods = ck.repo.legacy() if legacy else ck.repo.nonlegacy()
+    funcs: list[tuple[object, str, ast.FunctionDef, ast.ClassDef | None]] = []
+    tables: set[str] = set()
+    learned: set[str] = set()
+    for m in mods:
+        for q, fn, cls in _raw_functions(m):
+            funcs.append((m, q, fn, cls))
+            for g in ast.walk(fn):
+                if isinstance(g, ast.Global):
+                    learned |= set(g.names)
+        for st in m.tree.body:
+            tg = st.targets[0] if isinstance(st, ast.Assign) and len(st.targets) == 1 else (st.target if isinstance(st, ast.AnnAssign) else None)
+            if isinstance(tg, ast.Name) and _mutable_container(getattr(st, "value", None)):
+                tables.add(tg.id)
+        for c in [x for x in ast.walk(m.tree) if isinstance(x, ast.ClassDef)]:
+            for st in c.body:
+                tg = st.targets[0] if isinstance(st, ast.Assign) and len(st.targets) == 1 else (st.target if isinstance(st, ast.AnnAssign) else None)
+                if isinstance(tg, ast.Name) and _mutable_container(getattr(st, "value", None)):
+                    tables.add(tg.id)
+    tables -= _REGISTRIES
+    # only tables that functions fill at run time are memos (a table written once at import time is a constant)
+    filled: set[str] = set()
+    for _m, _q, fn_, _c in funcs:
+        for x in ast.walk(fn_):
+            if isinstance(x, ast.Subscript) and isinstance(x.ctx, ast.Store):
+                t_ = x.value.id if isinstance(x.value, ast.Name) else (x.value.attr if isinstance(x.value, ast.Attribute) else None)
+                if t_ in tables:
+                    filled.add(t_)
+            elif isinstance(x, ast.Call) and isinstance(x.func, ast.Attribute) and x.func.attr in ("setdefault", "update", "add", "append", "__setitem__"):
+                t_ = x.func.value.id if isinstance(x.func.value, ast.Name) else (x.func.value.attr if isinstance(x.func.value, ast.Attribute) else None)
+                if t_ in tables:
+                    filled.add(t_)
+    tables &= filled
+    by_simple: dict[str, list[int]] = {}
+    for i, (_, q, fn, _c) in enumerate(funcs):
+        by_simple.setdefault(fn.name, []).append(i)
+    # reachability by simple name (calls, references passed as arguments, decorators of a reached function, functions nested in it)
+    reach: set[int] = set()
+    work = [i for i, (m, q, fn, _c) in enumerate(funcs) if any(m.name == em and (q == eq or q.startswith(eq + ".")) for em, eq in entries)]
+    if not work:
+        ck.incomplete(rule, None, None, f"none of the entry points {entries[:3]} found")
+        return
+    while work:
+        i = work.pop()
+        if i in reach:
+            continue
+        reach.add(i)
+        m, q, fn, _c = funcs[i]
+        names: set[str] = set()
+        for n in ast.walk(fn):
+            if isinstance(n, ast.Call):
+                if isinstance(n.func, ast.Name):
+                    names.add(n.func.id)
+                elif isinstance(n.func, ast.Attribute) and n.func.attr not in _CG_SKIP:
+                    names.add(n.func.attr)
+                for a in list(n.args) + [k.value for k in n.keywords]:
+                    if isinstance(a, ast.Name):
+                        names.add(a.id)
+                    elif isinstance(a, ast.Attribute) and isinstance(a.value, ast.Name) and a.value.id in ("self", "cls"):
+                        names.add(a.attr)
+            elif isinstance(n, ast.Attribute) and isinstance(n.ctx, ast.Load) and isinstance(n.value, ast.Name) and n.value.id in ("self", "cls") and n.attr in by_simple:
+                names.add(n.attr)  # (properties)
+        for d in fn.decorator_list:
+            names |= {x.id for x in ast.walk(d) if isinstance(x, ast.Name)}
+        for nm in names:
+            for j in by_simple.get(nm, []):
+                if j not in reach:
+                    work.append(j)
+        for j, (m2, q2, _f2, _c2) in enumerate(funcs):
+            if m2 is m and q2.startswith(q + ".") and j not in reach:
+                work.append(j)
+    n_acc = 0
+    NODE_CLASSES = ("ASTNode", "AwareASTNode")
+    for i in sorted(reach):
+        m, q, fn, cls = funcs[i]
+        where = (m.rel, q)
+
+        def table_of(e: ast.expr) -> str | None:
+            if isinstance(e, ast.Name) and e.id in tables:
+                return e.id
+            if isinstance(e, ast.Attribute) and e.attr in tables:
+                return e.attr
+            return None
+
+        def resolve(e: ast.expr) -> ast.expr:
+            for _ in range(3):
+                if not isinstance(e, ast.Name):
+                    break
+                defs = [st.value for st in ast.walk(fn) if isinstance(st, ast.Assign) and len(st.targets) == 1 and isinstance(st.targets[0], ast.Name) and st.targets[0].id == e.id]
+                defs += [st.value for st in ast.walk(fn) if isinstance(st, ast.NamedExpr) and st.target.id == e.id]
+                if len(defs) != 1:
+                    break
+                e = defs[0]
+            return e
+
+        accesses: list[tuple[ast.AST, str, ast.expr]] = []
+        for n in ast.walk(fn):
+            if isinstance(n, ast.Subscript) and table_of(n.value):
+                accesses.append((n, table_of(n.value), n.slice))  # type: ignore[arg-type]
+            elif isinstance(n, ast.Call) and isinstance(n.func, ast.Attribute) and n.func.attr in ("get", "setdefault", "pop", "__contains__", "__getitem__") and table_of(n.func.value) and n.args:
+                accesses.append((n, table_of(n.func.value), n.args[0]))  # type: ignore[arg-type]
+            elif isinstance(n, ast.Compare) and len(n.ops) == 1 and isinstance(n.ops[0], (ast.In, ast.NotIn)) and table_of(n.comparators[0]):
+                accesses.append((n, table_of(n.comparators[0]), n.left))  # type: ignore[arg-type]
+            elif isinstance(n, ast.Call) and dotted(n.func) == "isinstance" and len(n.args) == 2 and isinstance(n.args[1], ast.Name) and n.args[1].id in learned:
+                n_acc += 1
+                ck.violation(rule, where, n, f"{q}: a class test against a table is exact for the classes that were entered ({why})", positive=True,
+                             construct=f"{q}: {norm(n)[:60]} — `{n.args[1].id}` is extended at run time (global), and isinstance also accepts subclasses of what was learned from earlier calls")
+        seen_t: set[tuple[str, str]] = set()
+        for n, tname, key0 in accesses:
+            key = resolve(key0)
+            ktxt = norm(key)[:60]
+            if (tname, ktxt) in seen_t:
+                continue
+            seen_t.add((tname, ktxt))
+            n_acc += 1
+            what = f"{q}: the table `{tname}` is keyed by something that identifies the cached fact for as long as the entry lives ({why})"
+            attrs = {a.attr for a in ast.walk(key) if isinstance(a, ast.Attribute)}
+            bad = None
+            if "id" in attrs:
+                bad = "a node id: ids are handed out again after detach / replace / garbage collection, and equal ids do not mean equal sub-trees below the direct children"
+            elif attrs & {"__name__", "__qualname__", "__module__", "fqn"}:
+                bad = f"a name ({sorted(attrs & {'__name__', '__qualname__', '__module__', 'fqn'})[0]}): distinct classes / sources may share it"
+            elif isinstance(key, ast.Name) and key.id in ("self", "node") and cls is not None and (cls.name in NODE_CLASSES or any(norm(b) in NODE_CLASSES for b in cls.bases)):
+                bad = "the node object: nodes hash by id and compare structurally, so an equal node built later finds the entry of one that is gone"
+            if bad:
+                ck.violation(rule, where, n, what, positive=True, construct=f"{q}: `{tname}` is keyed by {ktxt} — {bad}")
+            else:
+                ck.holds(rule, where, n, what, key=ktxt)
+    if n_acc == 0:
+        ck.holds(rule, (mods[0].rel, "*"), None, f"no table that outlives a call is consulted on the way from the entry points ({len(reach)} functions reached)")
+
+
+_GEN_METHODS = {"dfs", "bfs", "gather", "get_child_nodes", "get_child_nodes_with_field", "iter_child_fields", "get_properties", "get_property_fields",
+                "get_child_fields", "findall", "ancestors", "get_ancestors", "finditer", "items_iter"}
+_GEN_BUILTINS = {"map", "filter", "zip", "iter", "enumerate", "reversed", "itertools.chain", "chain", "itertools.islice", "islice", "itertools.starmap", "starmap"}
+_CONSUMERS = {"sum", "list", "tuple", "set", "frozenset", "sorted", "any", "all", "min", "max", "dict", "deque", "collections.deque", "next", "len"}
+
+
+def r_iter_once(ck: Checker, rule: str, modnames: tuple[str, ...]) -> None:
+    """A local bound to a one-shot iterator (a generator method of the library, map / filter / zip, a generator expression) is consumed at
+    most once on any path.  Positive pattern: two consuming uses that are not in the two arms of one `if` — the second one sees what the
+    first left over (nothing, if the first ran to the end: counting the matches for a log line empties the stream that is yielded from)."""
+    n = 0
+    for modname in modnames:
+        m_ = ck.repo.mod(modname)
+        for q, fn, _cls in _raw_functions(m_):
+            parent = {id(c): p_ for p_ in ast.walk(fn) for c in ast.iter_child_nodes(p_)}
+            defs: dict[str, list[ast.expr]] = {}
+            for st in ast.walk(fn):
+                if isinstance(st, ast.Assign) and len(st.targets) == 1 and isinstance(st.targets[0], ast.Name):
+                    defs.setdefault(st.targets[0].id, []).append(st.value)
+                elif isinstance(st, ast.AnnAssign) and isinstance(st.target, ast.Name) and st.value is not None:
+                    defs.setdefault(st.target.id, []).append(st.value)
+            for name, vals in defs.items():
+                if len(vals) != 1:
+                    continue
+                v = vals[0]
+                oneshot = isinstance(v, ast.GeneratorExp) or (isinstance(v, ast.Call) and ((isinstance(v.func, ast.Attribute) and v.func.attr in _GEN_METHODS)
+                                                                                             or (dotted(v.func) or "") in _GEN_BUILTINS))
+                if not oneshot:
+                    continue
+                uses: list[ast.AST] = []
+                for x in ast.walk(fn):
+                    if isinstance(x, (ast.For, ast.comprehension)) and isinstance(x.iter, ast.Name) and x.iter.id == name:
+                        uses.append(x)
+                    elif isinstance(x, ast.Call) and (dotted(x.func) or "") in _CONSUMERS and x.args and isinstance(x.args[0], ast.Name) and x.args[0].id == name \
+                            and (dotted(x.func) or "") != "next":
+                        uses.append(x)
+                    elif isinstance(x, ast.YieldFrom) and isinstance(x.value, ast.Name) and x.value.id == name:
+                        uses.append(x)
+                    elif isinstance(x, ast.Starred) and isinstance(x.value, ast.Name) and x.value.id == name:
+                        uses.append(x)
+                if len(uses) < 2:
+                    continue
+                n += 1
+
+                def arms(u: ast.AST) -> list[tuple[int, str]]:
+                    out = []
+                    x = u
+                    while id(x) in parent:
+                        up = parent[id(x)]
+                        if isinstance(up, ast.If):
+                            out.append((id(up), "body" if any(x is b for b in up.body) else ("orelse" if any(x is b for b in up.orelse) else "test")))
+                        elif isinstance(up, ast.IfExp):
+                            out.append((id(up), "body" if x is up.body else ("orelse" if x is up.orelse else "test")))
+                        x = up
+                    return out
+                clash = None
+                for i_, a in enumerate(uses):
+                    for b in uses[i_ + 1:]:
+                        aa, bb = dict(arms(a)), dict(arms(b))
+                        exclusive = any(k in bb and {aa[k], bb[k]} == {"body", "orelse"} for k in aa)
+                        # a use in an arm that always leaves (return / raise at its end) is exclusive with what follows the if
+                        if not exclusive:
+                            for k, arm in aa.items():
+                                if k not in bb and arm in ("body", "orelse"):
+                                    ifn = next(p_ for p_ in ast.walk(fn) if id(p_) == k)
+                                    blk = getattr(ifn, arm, None)
+                                    if isinstance(blk, list) and blk and isinstance(blk[-1], (ast.Return, ast.Raise, ast.Continue, ast.Break)):
+                                        exclusive = True
+                        if not exclusive:
+                            clash = (a, b)
+                what = f"{q}: the one-shot iterator `{name}` is consumed at most once on any path"
+                if clash:
+                    ck.violation(rule, (m_.rel, q), clash[1] if hasattr(clash[1], "lineno") else clash[0], what, positive=True,
+                                 construct=f"{q}: `{name} = {norm(v)[:50]}` is consumed at line {getattr(clash[0], 'lineno', '?')} and again at line {getattr(clash[1], 'lineno', '?')} — the second use gets what the first left over")
+                else:
+                    ck.holds(rule, (m_.rel, q), uses[0], what)
+    if n == 0:
+        ck.holds(rule, (modnames[0], "*"), None, f"no local one-shot iterator is used twice in {', '.join(modnames)}")
+
+
+def r_mutable_default(ck: Checker, rule: str, modnames: tuple[str, ...]) -> None:
+    """A default argument is evaluated once, when the function is defined: a mutable container given as a default and then filled (or handed
+    out) by the function is one object shared by every call that relies on the default — what a call appends is still there for the next
+    one, and for a generator that is abandoned half way (positive pattern)."""
+    n = 0
+    for modname in modnames:
+        m_ = ck.repo.mod(modname)
+        for q, fn, _cls in _raw_functions(m_):
+            a = fn.args
+            pos = a.posonlyargs + a.args
+            pairs = list(zip(pos[len(pos) - len(a.defaults):], a.defaults)) + [(p_, d_) for p_, d_ in zip(a.kwonlyargs, a.kw_defaults) if d_ is not None]
+            for p_, d_ in pairs:
+                if not _mutable_container(d_):
+                    continue
+                n += 1
+                name = p_.arg
+                rebound_first = bool(fn.body) and any(isinstance(st, ast.Assign) and any(isinstance(t_, ast.Name) and t_.id == name for t_ in st.targets) for st in fn.body[:2])
+                used = [x for x in ast.walk(fn) if (isinstance(x, ast.Call) and isinstance(x.func, ast.Attribute) and x.func.attr in MUTATORS and isinstance(x.func.value, ast.Name) and x.func.value.id == name)
+                        or (isinstance(x, ast.Subscript) and isinstance(x.ctx, (ast.Store, ast.Del)) and isinstance(x.value, ast.Name) and x.value.id == name)
+                        or (isinstance(x, ast.Return) and isinstance(x.value, ast.Name) and x.value.id == name)]
+                what = f"{q}: no mutable default argument is filled or handed out (every call works on containers of its own)"
+                if used and not rebound_first:
+                    ck.violation(rule, (m_.rel, q), used[0], what, positive=True,
+                                 construct=f"{q}: parameter `{name}={norm(d_)}` is one object for all calls; {norm(used[0])[:40]} — a later call (or a second traversal alive at the same time) sees what an earlier one left in it")
+                else:
+                    ck.holds(rule, (m_.rel, q), fn, what)
+    if n == 0:
+        ck.holds(rule, (modnames[0], "*"), None, f"no function of {', '.join(modnames)} has a mutable container as a default argument")
